@@ -1,6 +1,7 @@
 package main
 
 import (
+	"sync/atomic"
 	"bytes"
 	"context"
 	"fmt"
@@ -239,7 +240,25 @@ func parseIncremental(out string, n int) []string {
 }
 
 // race runs the standalone query on all solvers and takes the first decisive answer.
+// loadRetries: how many obligations of this process may be raced a second time with a four times longer time limit
+// after every solver ran into the limit (a loaded machine must not turn a proof into an alarm)
+var loadRetries int32 = 6
+
 func (u *Unit) race(i int, o *Obligation, base string, timeoutMs int) {
+	u.raceOnce(i, o, base, timeoutMs)
+	want := "unsat"
+	if o.Cover {
+		want = "sat"
+	}
+	if o.Result != want && o.Result != "sat" && o.Result != "unsat" && o.timedOut && atomic.AddInt32(&loadRetries, -1) >= 0 {
+		first := o.Detail
+		o.Detail = ""
+		u.raceOnce(i, o, base, timeoutMs*4)
+		o.Detail = first + " retried with 4x time limit:" + o.Detail
+	}
+}
+
+func (u *Unit) raceOnce(i int, o *Obligation, base string, timeoutMs int) {
 	file := fmt.Sprintf("%s.o%d.smt2", base, i)
 	if err := os.WriteFile(file, []byte(u.standaloneScript(i, true)), 0o644); err != nil {
 		panic(err)
@@ -281,9 +300,13 @@ func (u *Unit) race(i int, o *Obligation, base string, timeoutMs int) {
 	}
 	var best *ans
 	var all []string
+	o.timedOut = false
 	for range solvers {
 		a := <-ch
 		all = append(all, a.solver+"="+a.res)
+		if a.dt*1000 >= 0.8*float64(timeoutMs) {
+			o.timedOut = true
+		}
 		a2 := a
 		if a.res == want {
 			best = &a2
